@@ -268,6 +268,32 @@ def matches_descr(x, d):
 
 _serial = itertools.count()
 
+# environment variables that change how the REPL / the interpreter behaves; the checks' sessions run
+# without them whatever the caller's environment holds
+_ENV_DROP = ("HYSTARTUP", "PYTHONSTARTUP", "PYTHONWARNINGS", "PYTHONOPTIMIZE", "PYTHONINSPECT", "PYTHONDEBUG",
+             "PYTHONVERBOSE", "PYTHONBREAKPOINT", "PYTHONDEVMODE", "PYTHONSAFEPATH")
+
+
+def _drop(name):
+    return name in _ENV_DROP or (name.startswith("HY_") and name != "HY_HISTORY") or name == "HYLANG_SPY"
+
+
+@contextlib.contextmanager
+def clean_session():
+    """Run a case with startup files / spy / inherited warning filters out of the picture:
+    os.environ without HYSTARTUP, HY_*, PYTHONWARNINGS ... and the warning filters reset to
+    "default" (an inherited -W error must not turn a SyntaxWarning into a compile error)."""
+    import warnings
+    saved = {k: v for k, v in os.environ.items() if _drop(k)}
+    for k in saved:
+        del os.environ[k]
+    try:
+        with warnings.catch_warnings():
+            warnings.simplefilter("default")
+            yield
+    finally:
+        os.environ.update(saved)
+
 
 def output_function(name):
     import hy
@@ -324,15 +350,15 @@ def hy_script():
     return os.path.join(os.path.dirname(sys.executable), "hy")
 
 
-def drive_subprocess(all_lines, output_fn="hy.repr", timeout=60):
+def drive_subprocess(all_lines, output_fn="hy.repr", timeout=25):
     """Run a real `hy -i` REPL child with the lines on its standard input (a pipe).
     `hy` starts the REPL on a non-tty stdin only with -i; `-c ""` gives it nothing to run first.
-    Returns (rc, stdout, stderr)."""
-    env = dict(os.environ)
+    Returns (rc, stdout, stderr); rc is None when the child did not finish within `timeout`
+    seconds (well below the per-case alarm, so that a hung child is a skipped sub-check)."""
+    env = {k: v for k, v in os.environ.items() if not _drop(k)}
     env["PYTHONIOENCODING"] = "utf-8"
     import tempfile
     scratch = os.environ.get("VERIF_SCRATCH") or tempfile.gettempdir()
-    env.pop("HYSTARTUP", None)
     # the child must not read or write the user's ~/.hy-history
     env["HY_HISTORY"] = os.path.join(scratch, "hvc40-history-%d" % os.getpid())
     cmd = [hy_script(), "-i", "--repl-output-fn", "repr" if output_fn == "repr" else "hy.repr", "-c", ""]
